@@ -1,6 +1,6 @@
 """C16 — the type space stays consistent across any history of additions (explicit-state search).
 State = history of API calls on one TypeSpace, rebuilt by replaying on the real code (a snapshot after every op).
-Breadth-first over all histories to depth d over a 21-op alphabet, with repeats. Invariants after every transition:
+Breadth-first over all histories to depth d over a 22-op alphabet, with repeats. Invariants after every transition:
  I1 every type id seen earlier still resolves with the same (name, ident, structure);
  I2 repeating a type addition returns the same ident and adds no items;
  I3 no two items of one kind+name in the rendered stream, stream parses;
@@ -41,6 +41,7 @@ D12.update(D2)
 TIT = dict(obj({"a": INT}), title="Tit")
 OPS = {
     "R6": {"refs": D6}, "R6r": {"refs": [["Zest", D6["Zest"]], ["Apple", D6["Apple"]]]}, "R6z": {"refs": {"Zest": D6["Zest"]}}, "R6a": {"refs": {"Apple": D6["Apple"]}},
+    "R14": {"refs": dict(D1, **D4)},   # ONE batch holding W (whose in-line member type is named WInner) and a definition WInner
     "R1": {"refs": D1}, "R2": {"refs": D2}, "R3": {"refs": D3}, "R4": {"refs": D4}, "R5": {"refs": D5}, "R12": {"refs": D12},
     "ROOT1": {"root": dict(obj({"p": {"$ref": "#/definitions/P"}}), title="Root1", definitions=D1)},
     "ROOT2": {"root": dict(obj({"t": TIT}), title="Root2", definitions=D2)},
@@ -58,11 +59,11 @@ ALPHABET = list(OPS)
 SUB6 = ["R1", "R3", "T1", "T3", "T4", "T5"]
 SUB_ORDER = ["R6", "R6r", "R6z", "R6a", "R2", "T1"]
 SUB_ROOTS = ["ROOT3", "T6", "ROOT2", "T1", "R2", "T7", "T8"]
-DEFINES = {"R6": set(D6), "R6r": set(D6), "R6z": {"Zest"}, "R6a": {"Apple"}, "R5": set(D5), "R1": set(D1), "R2": set(D2), "R3": set(D3), "R4": set(D4), "R12": set(D12), "ROOT1": set(D1) | {"Root1"}, "ROOT2": set(D2) | {"Root2"},
+DEFINES = {"R14": set(D1) | set(D4), "R6": set(D6), "R6r": set(D6), "R6z": {"Zest"}, "R6a": {"Apple"}, "R5": set(D5), "R1": set(D1), "R2": set(D2), "R3": set(D3), "R4": set(D4), "R12": set(D12), "ROOT1": set(D1) | {"Root1"}, "ROOT2": set(D2) | {"Root2"},
            "ROOT3": {"Root3"}}
 ROOT_TITLE = {"ROOT1": "Root1", "ROOT2": "Root2", "ROOT3": "Root3"}
 NEEDS_D1 = {"T4", "R5"}
-PROVIDES_D1 = {"R1", "R12", "ROOT1"}
+PROVIDES_D1 = {"R1", "R12", "ROOT1", "R14"}
 # pairs declared independent by the alphabet: disjoint definition names, no cross references, no coinciding inline names
 INDEPENDENT = {frozenset(p) for p in [("R1", "R2"), ("R1", "R3"), ("R2", "R3"), ("R3", "R4"), ("R2", "R4"), ("R3", "R12"),
                                       ("R3", "ROOT1"), ("R2", "T5"), ("R3", "T5"), ("R3", "T1"), ("R3", "T2"), ("R3", "T3") , ("R4", "T5"),
@@ -292,14 +293,14 @@ def execute(cases_, tier, seed):
     res.evaluations = len(cases_)
     res.extra.update({"histories": len(cases_), "commutation_checks": n_comm, "max_depth": max(len(c["history"]) for c in cases_)})
     res.samples = [c["history"] for c in cases_[:: max(1, len(cases_) // 5)]][:5]
-    res.bound = "tier=%s: all histories over the 21-op alphabet to depth %s" % (tier, "3 (and depth 4 over a 6-op, depth 3 over the 6-op ordering sub-alphabet)" if tier == "quick" else "4 (and depth 5 over an 8-op and the 6-op ordering sub-alphabet)")
+    res.bound = "tier=%s: all histories over the 22-op alphabet to depth %s" % (tier, "3 (and depth 4 over a 6-op, depth 3 over the 6-op ordering sub-alphabet)" if tier == "quick" else "4 (and depth 5 over an 8-op and the 6-op ordering sub-alphabet)")
     res.assumptions = ["histories are not extended past an op that returns Err (documented: the space is unspecified after an error)"]
     if not res.violations and (len(cases_) > 50 and (len(canon_states) < 30 or n_comm < 10)):   # a subject that breaks everything is reported through its violations, not as vacuity
         raise MachineryError("vacuity guard: states=%d commutation checks=%d" % (len(canon_states), n_comm))
     return res
 
 
-INLINE = {"T8": {"Level"}, "T6": {"Root3"}, "T3": {"Labels"}, "R1": {"WInner"}, "R12": {"WInner"}, "ROOT1": {"WInner"}}
+INLINE = {"R14": {"WInner"}, "T8": {"Level"}, "T6": {"Root3"}, "T3": {"Labels"}, "R1": {"WInner"}, "R12": {"WInner"}, "ROOT1": {"WInner"}}
 
 
 def _late_defined(h):
@@ -308,7 +309,7 @@ def _late_defined(h):
     out = set()
     for j, opj in enumerate(h):
         for n in DEFINES.get(opj, ()):
-            if any(n in INLINE.get(h[i], ()) for i in range(j)):
+            if any(n in INLINE.get(h[i], ()) for i in range(j + 1)):   # an earlier op, or the same batch
                 out.add(pascal(n))
     return out
 
